@@ -276,6 +276,7 @@ func deviations() []deviation {
 		})
 	}
 	jadd("inst+1", func(j *jspec) bool { j.inst++; return true })
+	jadd("inst-1", func(j *jspec) bool { j.inst--; return true }) // a genuine quorum certificate of the previous instance
 	jadd("round+1", func(j *jspec) bool { j.round++; return true })
 	jadd("round-1", func(j *jspec) bool {
 		if j.round == 0 {
